@@ -32,6 +32,8 @@ var shapes = []struct {
 	{"diamond", []Flavor{fl(), fl(0), fl(0), fl(1, 2)}, [][]int{{0, 2}, {1, 2}, {0, 1}}},
 	{"triple", []Flavor{fl(), fl(), fl(), fl(0, 1, 2)}, [][]int{{0, 1, 2}}},
 	{"deep-sibling", []Flavor{fl(), fl(0), fl(), fl(1, 2)}, [][]int{{0, 2}, {0, 1, 2}}},
+	{"diamond3", []Flavor{fl(), fl(0), fl(0), fl(1, 2)}, [][]int{{0, 1, 2}}},
+	{"cross", []Flavor{fl(), fl(), fl(0, 1), fl(1, 0), fl(2, 3)}, [][]int{{0, 1}}},
 }
 
 func buildTemplates(tier string) []tmpl {
@@ -42,9 +44,6 @@ func buildTemplates(tier string) []tmpl {
 				var ms []Method
 				for _, f := range on {
 					ms = append(ms, Method{F: f, Kind: kind, Msg: "m"})
-				}
-				if tier != "thorough" && 6 < len(sh.flavors)+len(ms) && kind != "before" && kind != "whopper" {
-					continue
 				}
 				out = append(out, tmpl{name: fmt.Sprintf("%s/%d/%s", sh.name, si, kind), flavors: sh.flavors, methods: ms})
 			}
@@ -159,7 +158,7 @@ func tmplBlock(tier string) *block {
 func nCases(tier string) int {
 	n := len(tmplBlock(tier).cases)
 	if tier == "thorough" {
-		return n + 250000
+		return n + 150000
 	}
 	return n + 12000
 }
@@ -259,12 +258,18 @@ func gen(r *rand.Rand, i int, tier string) Case {
 	sort.Strings(getters)
 	sort.Strings(setters)
 	nm := 2 + r.IntN(11)
-	manyWhoppers := r.IntN(8) == 0 // minority: 3 or more whoppers on one message may occur
-	whopCount := map[string]int{}
+	dense := r.IntN(4) == 0 // every method on :m, two or three per flavor
+	if dense {
+		nm = 2*nf + r.IntN(nf+1)
+	}
 	seenM := map[Method]bool{}
 	for k := 0; k < nm; k++ {
 		m := Method{F: r.IntN(nf), Kind: kinds[weighted(r, []int{3, 3, 3, 2})]}
-		switch weighted(r, []int{62, 8, 10, 7, 13}) {
+		sel := weighted(r, []int{62, 8, 10, 7, 13})
+		if dense {
+			sel = 0
+		}
+		switch sel {
 		case 0:
 			m.Msg = "m"
 		case 1:
@@ -286,16 +291,6 @@ func gen(r *rand.Rand, i int, tier string) Case {
 		}
 		if seenM[m] {
 			continue
-		}
-		if m.Kind == "whopper" {
-			if !manyWhoppers && 2 <= whopCount[m.Msg] {
-				m.Kind = "before"
-				if seenM[m] {
-					continue
-				}
-			} else {
-				whopCount[m.Msg]++
-			}
 		}
 		seenM[m] = true
 		c.Methods = append(c.Methods, m)
